@@ -71,6 +71,8 @@ type inst struct {
 	sock string
 	// a rewrite-ended event arrived while the -shrink file still existed
 	endedEarly bool
+	// the rewrite is expected to end without swapping the files: do not wait for the -shrink file to go
+	noSwapWait bool
 }
 
 var instCounter int
@@ -190,7 +192,7 @@ func (in *inst) shrinkWith(kinds string, at func(ev event) bool) ([]event, strin
 			// the end of a rewrite: the new file has been swapped in. If the -shrink file is still
 			// there the event came from somewhere else (e.g. a second request that returned early);
 			// give the real rewrite, now released, the time to finish before the state is compared.
-			for i := 0; i < 300 && fileSize(aofPath(in.dir)+"-shrink") >= 0; i++ {
+			for i := 0; i < 300 && !in.noSwapWait && fileSize(aofPath(in.dir)+"-shrink") >= 0; i++ {
 				in.endedEarly = true
 				time.Sleep(10 * time.Millisecond)
 			}
@@ -335,7 +337,7 @@ func genObject(rng *rand.Rand) []string {
 	}
 	if rng.Intn(40) == 0 {
 		// coordinates that are not finite: accepted by SET, not expressible in JSON
-		nf := []string{"nan", "inf", "-inf", "NaN", "+Inf", "Infinity"}
+		nf := []string{"nan", "inf", "-inf", "NaN", "+Inf", "Infinity", "100", "-200.5", "181"}
 		switch rng.Intn(4) {
 		case 0:
 			return []string{"POINT", nf[rng.Intn(len(nf))], f(-175, 175)}
@@ -516,6 +518,12 @@ func load(c *srv.Conn, d dataset) (errs []string) {
 func quiescent(r *hx.Result, cfg hx.Config, rng *rand.Rand, idx int, nonUTF8 bool) {
 	dir := filepath.Join(cfg.Work, fmt.Sprintf("q%d", idx))
 	os.RemoveAll(dir)
+	if idx%3 == 1 {
+		// every third run: the GeoJSON reader validates positions (also when the rewritten log is loaded)
+		os.Setenv("REQUIREVALID", "1")
+		defer os.Unsetenv("REQUIREVALID")
+		r.Dist("quiescent:requirevalid")
+	}
 	in := startInst(cfg.Work, dir)
 	defer func() { in.close() }()
 	ds := genDataset(rng, 10+rng.Intn(8), 1+rng.Intn(2), true, nonUTF8)
@@ -1710,7 +1718,7 @@ func runC09(r *hx.Result, cfg hx.Config) {
 		r.Extra["batch_sizes"] = "maxkeys=8 maxids=32 (Gen/Consts.v)"
 	}
 	nq, nc, nm, nmr, ncrashRounds := 3, 8, 13, 4, 1
-	nb := 3 // packets in flight at the final section
+	nb := 2 // packets in flight at the final section
 	if cfg.Tier == "thorough" {
 		nq, nc, nm, nmr, ncrashRounds = 25, 150, 300, 60, 4
 		nb = 80
@@ -1767,9 +1775,16 @@ func runC09(r *hx.Result, cfg hx.Config) {
 			nfPoints = append(nfPoints, o)
 		}
 	}
-	guard("non-finite points", func() { nonFiniteWitness(r, cfg, drv, "nfp", nfPoints, false) })
-	guard("non-finite rectangles", func() { nonFiniteWitness(r, cfg, drv, "nfr", nfRects, false) })
-	guard("overflow", func() { nonFiniteWitness(r, cfg, drv, "nfo", overflowObjects(), true) })
+	guard("non-finite points", func() { nonFiniteWitness(r, cfg, drv, "nfp", nfPoints, false, false) })
+	guard("non-finite rectangles", func() { nonFiniteWitness(r, cfg, drv, "nfr", nfRects, false, false) })
+	guard("requirevalid", func() { nonFiniteWitness(r, cfg, drv, "nfv", nonFiniteObjects(), false, true) })
+	guard("overflow", func() { nonFiniteWitness(r, cfg, drv, "nfo", overflowObjects(), true, false) })
+	// a follower starts over while its rewrite is parked (model: BReset, the guard of the final section)
+	for _, at := range []string{"final", "ids"} {
+		at := at
+		idx++
+		guard("follower reset "+at, func() { followerReset(r, cfg, drv, at, idx) })
+	}
 	guard("jset-append", func() { jsonWitness(r, cfg, "jset-append") })
 	guard("jdel-index", func() { jsonWitness(r, cfg, "jdel-index") })
 	guard("rename-hook", func() { renameHookWitness(r, cfg) })
